@@ -150,8 +150,11 @@ pub fn op_rx(eng: &mut FdtEngine, id: u32, now: u64, o: &mut Oracle) -> String {
     let cfg = eng.cfg.as_ref().unwrap();
     let want_exp = (t_pub / 1_000_000 + cfg.dur_us / 1_000_000) * 1_000_000;
     let got_exp = us(rec.fdt.borrow()[0].1);
+    // NTP era 1 (finding fdtabs-4): the 32-bit seconds of the expiry wrap on 2036-02-07T06:28:16Z
+    let era1 = |secs_utc: u64| secs_utc + NTP_OFF >= (1u64 << 32);
+    let exp_era1 = era1(want_exp / 1_000_000);
     if got_exp != want_exp {
-        o.fail("rx-expires", &format!("{}: expiry handed to fdt_received {} us != publish time + duration (floored) {} us", what, got_exp, want_exp));
+        o.fail(if exp_era1 { "ntp-era1-expiry" } else { "rx-expires" }, &format!("{}: expiry handed to fdt_received {} us != publish time + duration (floored) {} us", what, got_exp, want_exp));
     }
     let metas = rec.metas.borrow();
     for t in &tois {
@@ -183,8 +186,10 @@ pub fn op_rx(eng: &mut FdtEngine, id: u32, now: u64, o: &mut Oracle) -> String {
         let mut g: Vec<String> = cfg.groups.clone().unwrap_or_default();
         g.extend(ob.groups.clone().unwrap_or_default());
         let gg = m.groups.clone().unwrap_or_default();
-        let eol = |s: &str| s.contains('\u{2028}') || s.contains('\u{85}') || s.contains('\r');
-        let gclass = if g.iter().any(|x| eol(x)) { "rx-groups-eol11".to_string() } else { cl("rx-groups", &g.join("")) };
+        // finding D23 only when the difference is exactly quick-xml's end-of-line normalisation of element text
+        let eol11 = |s: &str| s.replace("\r\n", "\n").replace("\r\u{85}", "\n").replace(['\r', '\u{85}', '\u{2028}'], "\n");
+        let normed: Vec<String> = g.iter().map(|x| eol11(x)).collect();
+        let gclass = if gg != g && gg == normed { "rx-groups-eol11".to_string() } else { cl("rx-groups", &g.join("")) };
         cmp(&gclass, gg == g, list_hx(&gg), list_hx(&g));
         let want_cc = match &ob.cc {
             None => format!("hint{}", want_exp),
@@ -193,7 +198,13 @@ pub fn op_rx(eng: &mut FdtEngine, id: u32, now: u64, o: &mut Oracle) -> String {
             Some(Cc::In(d)) => format!("at{}", (t_pub + d) / 1_000_000 * 1_000_000),
             Some(Cc::At(x)) => format!("at{}", x / 1_000_000 * 1_000_000),
         };
-        cmp("rx-cache", show_cache(&m.cache_control) == want_cc, show_cache(&m.cache_control), want_cc.clone());
+        let cc_era1 = match &ob.cc {
+            None => exp_era1,
+            Some(Cc::In(d)) => era1((t_pub + d) / 1_000_000),
+            Some(Cc::At(x)) => era1(x / 1_000_000),
+            _ => false,
+        };
+        cmp(if cc_era1 { "ntp-era1-expiry" } else { "rx-cache" }, show_cache(&m.cache_control) == want_cc, show_cache(&m.cache_control), want_cc.clone());
         let eff = oracle::effective_oti(cfg, ob);
         let got = m.oti.as_ref().map(OtiSpec::from_oti);
         let class = if eff.enc == 1 { "rx-oti-raptor-z" } else { "rx-oti" };
